@@ -37,18 +37,7 @@ def run(ck: Checker):
     # ------------------------------------------------------------------ C04-2 / C04-3
     check_all_wrapping(ck, 'C04-2')
     # ensemble: a member output that is an exception is wrapped before it is stored in the result slot
-    f = smod.func('EnsembleServlet._dequeue')
-    cfg, sc, g = guard_cfg(ck, f, calls=())
-    slots = [n for n in cfg.nodes if isinstance(n.ast, ast.Assign) and isinstance(n.ast.targets[0], ast.Subscript) and isinstance(n.ast.targets[0].value, ast.Subscript) and isinstance(n.ast.value, ast.Name)]
-    ck.need(slots, f'{f.key}: result slot store not found')
-    for sn in slots:
-        v = sn.ast.value.id
-        bad = None
-        for d in g.at(sn.id):
-            facts = [x for x in d if x[1] == v]
-            if not (any(x[0] == 'pos' and x[2] == 'RemoteException' for x in facts) or any(x[0] == 'neg' and cfg.lat.is_sub('Exception', x[2]) for x in facts)):
-                bad = sorted(facts)
-        ck.ob('C04-2', f, sn.ast, bad is None, f'a member result stored in the slot is a RemoteException or proven not an exception' if bad is None else f'a member\'s failure can be stored in the result slot as a bare exception (path knowing only {bad}): fail_fast does not trigger for it and it loses its traceback when the combined result crosses a process boundary')
+    f, cfg, sc, g, slots = check_ensemble_slots(ck, 'C04-2')
     # fail_fast: with fail_fast on, a member failure is never delivered inside a "successful" result:
     # hypothesis {fail_fast is true, this member's output is a RemoteException} at the slot store; every
     # feasible path to an emit must carry the EnsembleError wrapper
@@ -471,3 +460,23 @@ def check_worker_short_circuit(ck: Checker, rid: str):
                 clean_value(ck, rid, f, cfg, g, n, c.args[0].elts[1].id, 'input handed to a batch')
             if dotted(c.func) == 'preprocess' and c.args and isinstance(c.args[0], ast.Name):
                 clean_value(ck, rid, f, cfg, g, n, c.args[0].id, 'value handed to the user\'s preprocess()')
+
+
+def check_ensemble_slots(ck: Checker, rid: str):
+    """what the ensemble stores in a result slot is a RemoteException or proven not an exception (a bare exception in the
+    slot is not recognised as a failure by the completion step: a request that failed in every member is answered with
+    the list of its errors as a *result*)"""
+    smod = ck.repo.module(SERVLET)
+    f = smod.func('EnsembleServlet._dequeue')
+    cfg, sc, g = guard_cfg(ck, f, calls=())
+    slots = [n for n in cfg.nodes if isinstance(n.ast, ast.Assign) and isinstance(n.ast.targets[0], ast.Subscript) and isinstance(n.ast.targets[0].value, ast.Subscript) and isinstance(n.ast.value, ast.Name)]
+    ck.need(slots, f'{f.key}: result slot store not found')
+    for sn in slots:
+        v = sn.ast.value.id
+        bad = None
+        for d in g.at(sn.id):
+            facts = [x for x in d if x[1] == v]
+            if not (any(x[0] == 'pos' and x[2] == 'RemoteException' for x in facts) or any(x[0] == 'neg' and cfg.lat.is_sub('Exception', x[2]) for x in facts)):
+                bad = sorted(facts)
+        ck.ob(rid, f, sn.ast, bad is None, f'a member result stored in the slot is a RemoteException or proven not an exception' if bad is None else f'a member\'s failure can be stored in the result slot as a bare exception (path knowing only {bad}): fail_fast does not trigger for it and it loses its traceback when the combined result crosses a process boundary')
+    return f, cfg, sc, g, slots
